@@ -256,6 +256,12 @@ func runReplay(job *Job) Result {
 			}
 		}
 		got := Obs(x, last, 0)
+		if dumpAll && driftOut != nil {
+			rr, _ := json.Marshal(map[string]interface{}{"k": c.Kind, "cfg": c, "wire": r.Wire, "cuts": r.Cuts,
+				"offs": offs, "err": verdict, "obs": json.RawMessage(got)})
+			driftOut.Write(rr)
+			driftOut.WriteByte('\n')
+		}
 		if r.Src == "gen" { // a generated behaviour without expectations: executed, counted
 			if nrec%2000 == 1 && len(res.Samples) < 8 {
 				res.Samples = append(res.Samples, fmt.Sprintf("%q -> (%s,%d)", buf, verdict, offs))
